@@ -142,6 +142,61 @@ fn break_list_matches(prog: &Prog, actions: &[&Action], expected: &[u16]) -> Opt
     None
 }
 
+/// Many breakpoints at once: a straight line of `n + 2` instructions; breakpoints are added at
+/// all of x3001..x3000+n in a scrambled order, the program is continued three times, every second
+/// breakpoint is removed again (descending), and it is continued twice more.
+pub fn many_breakpoints(n: usize) -> (Prog, Vec<Action>) {
+    let mut p = Program::default();
+    p.push(Some("first"), Stmt::Add(1, 1, Src2::Imm(Lit::dec(1))));
+    for _ in 0..n + 1 {
+        p.push(None, Stmt::Add(2, 2, Src2::Imm(Lit::dec(1))));
+    }
+    p.push(Some("end"), Stmt::Named(0x25, "halt"));
+    let prog = Prog::new(Box::leak(format!("straight-line-{n}").into_boxed_str()), p, true);
+    let orig = prog.image.origin();
+    let mut acts = Vec::new();
+    // a multiplier coprime to n scrambles the order of insertion
+    let mul = [7919usize, 7907, 7901, 7883, 7879].into_iter().find(|m| gcd(*m, n) == 1).unwrap_or(1);
+    for i in 0..n {
+        let a = orig + 1 + ((i * mul) % n) as u16;
+        acts.push(Action::of(Cmd::BreakAdd(Loc::Abs(a))));
+    }
+    for _ in 0..3 {
+        acts.push(Action::of(Cmd::Continue));
+    }
+    for i in (0..n).rev().step_by(2) {
+        acts.push(Action::of(Cmd::BreakRemove(Loc::Abs(orig + 1 + i as u16))));
+    }
+    acts.push(Action::of(Cmd::Continue));
+    acts.push(Action::of(Cmd::Continue));
+    (prog, acts)
+}
+
+fn gcd(a: usize, b: usize) -> usize {
+    if b == 0 { a } else { gcd(b, a % b) }
+}
+
+fn judge_many(n: usize) -> Option<Mismatch> {
+    let (prog, acts) = many_breakpoints(n);
+    let actions: Vec<&Action> = acts.iter().collect();
+    // after the additions and three continues; and at the end
+    for cut in [n, n + 3, actions.len()] {
+        let part = &actions[..cut];
+        let obs = match run_real_fuel(&prog, part, Tail::Exit, true, 2_000_000) {
+            Ok(o) => o,
+            Err((sig, what)) => return Some(Mismatch { sig: format!("many-breakpoints/{sig}"), what }),
+        };
+        let (d, pauses) = run_ref_fuel(&prog, part, 2_000_000);
+        if let Err(m) = compare_paused(&prog, part, &obs, &d, &pauses) {
+            return Some(Mismatch { sig: format!("many-breakpoints/{}", m.sig), what: format!("{n} breakpoints, after {cut} commands: {}", m.what) });
+        }
+        if let Some(m) = break_list_matches(&prog, part, &d.breakpoints()) {
+            return Some(Mismatch { sig: format!("many-breakpoints/{}", m.sig), what: format!("{n} breakpoints, after {cut} commands: {}", if m.what.len() > 300 { format!("{}...", &m.what[..300]) } else { m.what }) });
+        }
+    }
+    None
+}
+
 pub fn run(ctx: &Ctx) -> i32 {
     let _ = super::variant::measured();
     let progs = programs11();
@@ -187,19 +242,45 @@ pub fn run(ctx: &Ctx) -> i32 {
     let cfg = bfs::Config { max_depth: depth, dedup: true, state_cap: 3_000_000, wall_cap_s: ctx.tier.pick(45, 1500) };
     let (mut acc, stats) = bfs::explore(roots, &cfg, Some(Env::new(true)), step);
     acc.merge(pre);
+    // amounts: many breakpoints at once
+    let counts: Vec<usize> = if ctx.tier == crate::report::Tier::Thorough { vec![1, 2, 15, 16, 17, 31, 32, 33, 63, 64, 65, 127, 128, 129, 255, 256, 257, 511, 512, 513, 1023, 1024, 1025, 4095, 4096, 4097, 20000] } else { vec![1, 2, 15, 16, 17, 63, 64, 65, 127, 128, 129, 255, 256, 257, 1023, 1024, 1025, 4097] };
+    let parts = crate::isolate::pooled(Some(Env::new(true)), counts.len(), 1, Acc::new, |acc, i| {
+        acc.eval("many-breakpoints");
+        let mut r = judge_many(counts[i]);
+        if r.is_some() {
+            r = crate::isolate::confirm_fresh(|| judge_many(counts[i]));
+        }
+        match r {
+            None => {
+                acc.nontrivial();
+                acc.gate("many-breakpoints-agreed");
+                acc.outcome("many-breakpoints/ok".to_string());
+            }
+            Some(m) => {
+                acc.outcome(format!("violation:{}", m.sig));
+                acc.violation(format!("C11/{}", m.sig), m.what, json!({"check": "c11", "many_breakpoints": counts[i]}));
+            }
+        }
+    });
+    for p in parts {
+        acc.merge(p);
+    }
     finish(
         ctx,
         acc,
         Level { category: "model_checking", bfs: Some((stats.states, stats.transitions, stats.transitions, stats.max_depth)) },
-        "explicit-state BFS over command histories (continue, step, step into {1,3}, step out, reset, goto first, break add/remove in absolute, label+offset and ^offset spelling) on 18 programs: a loop revisiting its body three times with `.break` before the first statement, between any two, on the HALT, after the last statement, doubled, on a labelled statement, with a label of its own, three at once, at origin x4000 and at origins so low (x0002, x0004) that statement indices exceed the origin; a self-branch under a breakpoint; a breakpoint directly before HALT; a subroutine returning onto a breakpoint. Every transition: product of real debugger and reference (paused machine, instruction count, breakpoint set, sortedness), and `break list` output compared with the set after every breakpoint command and breakpoint pause. non-trivial = agreeing transitions",
+        "explicit-state BFS over command histories (continue, step, step into {1,3}, step out, reset, goto first, break add/remove in absolute, label+offset and ^offset spelling) on 18 programs: a loop revisiting its body three times with `.break` before the first statement, between any two, on the HALT, after the last statement, doubled, on a labelled statement, with a label of its own, three at once, at origin x4000 and at origins so low (x0002, x0004) that statement indices exceed the origin; a self-branch under a breakpoint; a breakpoint directly before HALT; a subroutine returning onto a breakpoint. Every transition: product of real debugger and reference (paused machine, instruction count, breakpoint set, sortedness), and `break list` output compared with the set after every breakpoint command and breakpoint pause. Plus amounts: n breakpoints (n around every power of two up to 4096; thorough also 20000) added in scrambled order on a straight line of n+2 instructions, three continues, every second one removed in descending order, two more continues; product comparison and `break list` at three cut points. non-trivial = agreeing transitions",
         !stats.capped,
-        &["paused-at-breakpoint", "paused-at-halt", "loop-iteration-repeated", "break-directive-observed", "command-refused"],
+        &["paused-at-breakpoint", "paused-at-halt", "loop-iteration-repeated", "break-directive-observed", "command-refused", "many-breakpoints-agreed"],
         &["reference debugger = DESIGN.md appendix A: the instruction at the resume address executes once, then every arrival at a breakpoint pauses"],
         json!({"depth": depth, "states": stats.states, "per_level": stats.per_level, "capped": stats.capped}),
     )
 }
 
 pub fn replay(_ctx: &Ctx, case: &Value) -> Option<Option<String>> {
+    if let Some(n) = case["many_breakpoints"].as_u64() {
+        return Some(crate::isolate::confirm_fresh(|| judge_many(n as usize)).map(|m| format!("{}: {}", m.sig, m.what)));
+    }
     let name = case["program"].as_str()?;
     let hist: Vec<u8> = case["history"].as_array()?.iter().map(|v| v.as_u64().unwrap() as u8).collect();
     let progs = programs11();
